@@ -865,7 +865,7 @@ fn soup_inner(w: &mut World, kp: &mut KpMaker, c: usize, cleaf: u32, timed: bool
         v
     };
     let cg = clones.get_mut(&c).unwrap();
-    let desc = match guarded(|| cg.apply_pending_commit()) {
+    let desc = match guarded(|| cg.apply_pending_alt()) {
         Ok(Ok(d)) => d,
         Ok(Err(e)) => {
             w.violate(format!("C10|committer_cannot_apply_own_commit|{}", ek(&format!("{e:?}"))), format!("member {c}: {e:?}"));
